@@ -51,7 +51,7 @@ func HHmmFromString(s string) (*HHmm, error) {
 		return nil, fmt.Errorf("invalid HH:mm string (%s) - valid range is 00:00 to 24:00", s)
 	}
 
-	if minutes < 0 || minutes > 60 {
+	if minutes < 0 || minutes > 59 {
 		return nil, fmt.Errorf("invalid HH:mm string (%s) - valid range is 00:00 to 24:00", s)
 	}
 
@@ -181,7 +181,7 @@ func (h *HHmm) UnmarshalUT0311L0x(bytes []byte) (interface{}, error) {
 		return nil, fmt.Errorf("invalid HH:mm string (%s) - valid range is 00:00 to 24:00", decoded)
 	}
 
-	if minutes < 0 || minutes > 60 {
+	if minutes < 0 || minutes > 59 {
 		return nil, fmt.Errorf("invalid HH:mm string (%s) - valid range is 00:00 to 24:00", decoded)
 	}
 
@@ -225,7 +225,7 @@ func (h *HHmm) UnmarshalJSON(bytes []byte) error {
 		return fmt.Errorf("invalid HH:mm string (%s) - valid range is 00:00 to 24:00", s)
 	}
 
-	if minutes < 0 || minutes > 60 {
+	if minutes < 0 || minutes > 59 {
 		return fmt.Errorf("invalid HH:mm string (%s) - valid range is 00:00 to 24:00", s)
 	}
 
